@@ -413,157 +413,26 @@ func (s *spaceEval) stmt(st ast.Stmt) {
 }
 
 func (e *Env) C05Space() {
+	e.lineStateApplySpace()
+	// the loop body of applySpace, by its effect over the entry cursor c0: one line start, recorded
+	// after stepping over one byte (the separator, e.g. a comma), cursor left directly behind it
 	pkg := e.Prog.Pkg(load.PkgDecorator)
-	c := e.Sib.Ctx[load.PkgDecorator]
 	info := pkg.TypesInfo
 	fd := load.FuncDecl(pkg, "FileRestorer", "applySpace")
 	if fd == nil || fd.Body == nil {
-		e.Run.Violation("R-SPACE", "applySpace exists", "", "function missing")
 		return
 	}
-	pos := e.Prog.Pos(fd.Pos())
-	// the SpaceType constants and their declared values
-	dstPkg := e.Prog.Pkg(load.PkgDst).Types
-	consts := map[string]int64{}
-	for _, n := range []string{"None", "NewLine", "EmptyLine"} {
-		if cst, ok := dstPkg.Scope().Lookup(n).(*types.Const); ok {
-			if v, ok := constant.Int64Val(cst.Val()); ok {
-				consts[n] = v
-			}
-		}
-	}
-	e.Run.Check("R-SPACE", "SpaceType constants: None=0, NewLine=1 (single \\n), EmptyLine=2 (double \\n)", "", consts["None"] == 0 && consts["NewLine"] == 1 && consts["EmptyLine"] == 2 && len(consts) == 3,
-		fmt.Sprintf("declared values %v; the documentation defines NewLine as a single and EmptyLine as a double line break", consts))
-	var params []types.Object
-	for _, p := range fd.Type.Params.List {
-		for _, nm := range p.Names {
-			params = append(params, info.Defs[nm])
-		}
-	}
-	if len(params) != 3 {
-		e.Run.Violation("R-SPACE", "applySpace(node, position, space)", pos, "signature changed")
-		return
-	}
-	n := 0
-	var loopBody []ast.Stmt
-	for _, sp := range []string{"None", "NewLine", "EmptyLine"} {
-		for _, fresh := range []bool{false, true} {
-			for _, bad := range []bool{false, true} {
-				for _, after := range []bool{false, true} {
-					in := spaceIn{space: sp, fresh: fresh, bad: bad, after: after, spaceV: consts[sp]}
-					ev := &spaceEval{e: e, c: c, info: info, in: in, ints: map[types.Object]int64{params[2]: consts[sp]}, nodeObj: params[0], posObj: params[1], spObj: params[2]}
-					ev.stmts(fd.Body.List)
-					key := fmt.Sprintf("applySpace(space=%s, at-fresh-line=%v, bad-node=%v, position=%s)", sp, fresh, bad, map[bool]string{true: "After", false: "Before"}[after])
-					if ev.undec != "" {
-						e.Run.Undecided("R-SPACE", key, pos, ev.undec)
-						continue
-					}
-					n++
-					eff := consts[sp]
-					if bad && after {
-						eff = consts["EmptyLine"]
-					}
-					want := eff
-					if fresh {
-						want--
-					}
-					if want < 0 {
-						want = 0
-					}
-					e.Run.Check("R-SPACE", key+" emits the documented number of line breaks", pos, ev.breaks == want,
-						fmt.Sprintf("%d line breaks emitted, %d expected (value of the constant%s, minus one when the cursor already sits directly after a line break, floored at 0)", ev.breaks, want, map[bool]string{true: "; Bad nodes are always followed by an empty line", false: ""}[bad && after]))
-					if ev.body != nil {
-						loopBody = ev.body
-					}
-				}
-			}
-		}
-	}
-	e.Run.Analysed("input classes of applySpace", n)
-	e.Run.Floor("R-SPACE", "input classes evaluated", n, 24)
-	// the loop body, by its effect over the entry cursor c0: one line start, recorded after
-	// stepping over one byte (the separator, e.g. a comma), cursor left directly behind the line
-	// start, marker = cursor
-	if loopBody != nil {
-		eff := e.lineBreakEffect(info, loopBody)
-		good := eff.why == "" && len(eff.starts) == 1 && eff.starts[0] >= 1 && eff.exit == eff.starts[0]+1 && eff.markerSet && eff.markerVal == eff.exit
-		e.Run.Check("R-SPACE", "applySpace: each line break records exactly one line start and advances the cursor", pos, good,
-			fmt.Sprintf("effect of one iteration over the entry cursor c0: line starts at c0+%v, cursor on exit c0+%d, marker set=%v (c0+%d) %s — expected one line start at c0+k (k ≥ 1: the byte stepped over for a separator), exit cursor c0+k+1, marker = exit cursor", eff.starts, eff.exit, eff.markerSet, eff.markerVal, eff.why))
+	for _, blk := range e.lineBreakBlocks(info, fd) {
+		eff := e.lineBreakEffect(info, blk)
+		good := eff.why == "" && len(eff.starts) == 1 && eff.starts[0] >= 1 && eff.exit == eff.starts[0]+1 && (!eff.markerSet || eff.markerVal == eff.exit)
+		e.Run.Check("R-SPACE", "applySpace: each line break records exactly one line start and advances the cursor", e.Prog.Pos(fd.Pos()), good,
+			fmt.Sprintf("effect of one line break over the entry cursor c0: line starts at c0+%v, cursor on exit c0+%d %s — expected one line start at c0+k (k ≥ 1: the byte stepped over for a separator) and exit cursor c0+k+1", eff.starts, eff.exit, eff.why))
 	}
 }
 
-// markerDiscipline: the fresh-line marker is set only directly after a line break
-// (append to the line table; r.cursor++; marker = cursor), in applySpace and applyDecorations.
+// markerDiscipline: the line-state machine of applyDecorations (all decoration lists).
 func (e *Env) markerDiscipline() {
-	pkg := e.Prog.Pkg(load.PkgDecorator)
-	c := e.Sib.Ctx[load.PkgDecorator]
-	info := pkg.TypesInfo
-	n := 0
-	for _, fd := range load.AllFuncDecls(pkg) {
-		if fd.Body == nil || !isRestorePath(fd) || fd.Name.Name == "RestoreFile" {
-			continue
-		}
-		blocks := e.lineBreakBlocks(info, fd)
-		ast.Inspect(fd.Body, func(nd ast.Node) bool {
-			as, ok := nd.(*ast.AssignStmt)
-			if !ok || len(as.Lhs) != 1 || !e.isRestorerField(info, as.Lhs[0], "cursorAtNewLine") {
-				return true
-			}
-			n++
-			inBlock := false
-			for _, blk := range blocks {
-				for _, st := range blk {
-					if st == ast.Stmt(as) {
-						inBlock = true
-					}
-				}
-			}
-			e.Run.Check("R-SPACE", "fresh-line marker set only directly after a line break in "+load.FuncName(fd), e.Prog.Pos(as.Pos()), inBlock,
-				"the marker means 'the cursor sits directly after a line break'; it may only be set in a block that records a line start (whose effect R-CURSOR checks: marker = exit cursor)")
-			return true
-		})
-	}
-	e.Run.Floor("R-SPACE", "marker stores", n, 1)
-	// applyDecorations: the line break (marker store) happens exactly for line comments and "\n"
-	fd := load.FuncDecl(pkg, "FileRestorer", "applyDecorations")
-	if fd == nil {
-		return
-	}
-	c.ComputeSubst(fd.Body.List, map[string]bool{"cursor": true, "cursorAtNewLine": true, "lines": true, "comments": true})
-	defer func() { c.Subst = nil }()
-	var loop *ast.RangeStmt
-	for _, st := range fd.Body.List {
-		if rs, ok := st.(*ast.RangeStmt); ok {
-			loop = rs
-		}
-	}
-	if loop == nil {
-		return
-	}
-	dName := "d"
-	if id, ok := loop.Value.(*ast.Ident); ok {
-		dName = id.Name
-	}
-	var marker ast.Node
-	ast.Inspect(loop.Body, func(nd ast.Node) bool {
-		if as, ok := nd.(*ast.AssignStmt); ok && len(as.Lhs) == 1 && e.isRestorerField(info, as.Lhs[0], "cursorAtNewLine") {
-			marker = as
-		}
-		return true
-	})
-	if marker == nil {
-		e.Run.Violation("R-SPACE", "applyDecorations: a line comment or \"\\n\" decoration contributes exactly its own line break", e.Prog.Pos(fd.Pos()), "no fresh-line marker store in the decoration loop")
-		return
-	}
-	pc, ok := pathCond(c, loop.Body.List, marker)
-	want := fmt.Sprintf("strings.HasPrefix(%s, \"//\") || %s == \"\\n\"", dName, dName)
-	eq, dec := equivalentGuards(pc, want)
-	if !ok || !dec {
-		e.Run.Undecided("R-SPACE", "applyDecorations: a line comment or \"\\n\" decoration contributes exactly its own line break", e.Prog.Pos(marker.Pos()), "path condition outside the propositional subset: "+pc)
-		return
-	}
-	e.Run.Check("R-SPACE", "applyDecorations: a line comment or \"\\n\" decoration contributes exactly its own line break", e.Prog.Pos(marker.Pos()), eq,
-		fmt.Sprintf("the line break is emitted when «%s»; it must be emitted exactly when the decoration is a // comment or \"\\n\"", pc))
+	e.lineStateApplyDecorations()
 }
 
 func init() {
